@@ -445,10 +445,14 @@ def _list(ex, it=()):
 
 
 def _tuple(ex, it=()):
+    if hasattr(it, "sym_tuple"):
+        return it.sym_tuple(ex)
     return tuple(ex.iterate(it))
 
 
 def _sorted(ex, it, key=None, reverse=False):
+    if hasattr(it, "sym_sorted"):
+        return it.sym_sorted(ex, key, reverse)
     xs = list(ex.iterate(it))
     return sort_list(ex, xs, key, reverse)
 
